@@ -438,7 +438,8 @@ type genQuery struct {
 func buildQuery(rng *rand.Rand, idx int) genQuery {
 	shapes := []string{"project", "where", "distinct", "groupby", "groupby-trigger", "join-inner", "join-left", "join-right", "join-outer", "join-star",
 		"tvf-range", "tvf-watermark", "tvf-tumble", "subquery-from", "with", "groupby-in-subquery", "outerjoin-in-subquery", "scalar-subquery", "casts", "lookup-join", "join-groupby", "explode",
-		"typesum", "typesum", "typesum-groupby", "typesum-subquery", "typesum-distinct", "typesum"}
+		"typesum", "typesum", "typesum-groupby", "typesum-subquery", "typesum-distinct", "typesum",
+		"join-retract-left", "join-retract-right", "join-retract-outer", "join-retract-groupby", "join-retract-left", "join-retract-right"}
 	shape := shapes[idx%len(shapes)]
 	g := &qgen{rng: rng, cols: map[string][]string{}}
 	depth := 1 + rng.Intn(3)
@@ -555,6 +556,8 @@ func buildQuery(rng *rand.Rand, idx int) genQuery {
 			parts[i] = fmt.Sprintf("%s AS c%d", sel[i], i)
 		}
 		return genQuery{shape: shape, sql: "SELECT " + strings.Join(parts, ", ") + " FROM m.t1 a"}
+	case "join-retract-left", "join-retract-right", "join-retract-outer", "join-retract-groupby":
+		return genQuery{shape: shape, sql: buildRetractJoinQuery(rng, shape), join: true}
 	case "typesum", "typesum-groupby", "typesum-subquery", "typesum-distinct":
 		return genQuery{shape: shape, sql: buildTypesumQuery(rng, shape)}
 	case "explode":
@@ -638,6 +641,13 @@ func runQuery(c *core.Ctx, ctx context.Context, i int, only string) {
 	db := &nodeh.DB{Tables: map[string]*nodeh.Table{"t1": genTable(rng, t1Cols, 8), "t2": genTable(rng, t2Cols, 6)}}
 	if strings.HasPrefix(q.shape, "typesum") {
 		db.Tables["t3"] = genTable(rng, t3Cols, 10)
+	}
+	if strings.HasPrefix(q.shape, "join-retract") {
+		// inputs that retract: small tables, few distinct keys (a.i and b.id collide), valid changelogs
+		db.Tables["t1"] = genRetractingTable(rng, t1Cols, 6)
+		if q.shape != "join-retract-groupby" || rng.Intn(2) == 0 {
+			db.Tables["t2"] = genRetractingTable(rng, t2Cols, 5)
+		}
 	}
 	optimize := rng.Intn(2) == 0
 	replay := map[string]interface{}{"id": id, "shape": q.shape, "sql": q.sql, "optimize": optimize,
